@@ -143,17 +143,17 @@ func (d *vdns) serve() {
 }
 
 // ------------------------------------------------------------------ concretisation
-var vcovAddr = map[string]string{"pub4": "93.184.216.34", "priv4": "10.1.2.3", "loop4": "127.0.0.1", "pub6": "2606:2800:220:1::1", "ula6": "fd12:3456::1"}
+var vcovAddr = map[string]string{"pub4": "93.184.216.34", "priv4": "10.1.2.3", "loop4": "127.0.0.1", "loopnet4": "127.0.0.2", "pub6": "2606:2800:220:1::1", "ula6": "fd12:3456::1"}
 
 // a second address per class for "blockedlit" rows: literals whose text a configured pattern matches (as a prefix)
-var vcovAddrB = map[string]string{"pub4": "93.184.77.5", "priv4": "10.77.2.3", "loop4": "127.77.0.1", "pub6": "2606:2800:77::1", "ula6": "fd12:77::1"}
+var vcovAddrB = map[string]string{"pub4": "93.184.77.5", "priv4": "10.77.2.3", "loopnet4": "127.77.0.1", "pub6": "2606:2800:77::1", "ula6": "fd12:77::1"}
 
 // the domain patterns of a policy with patterns, in the styles operators write them: a whole-host pattern, an unanchored one,
 // a prefix, a suffix, and address prefixes (the pattern stage sees the host text of literals too)
 var vcovPatterns = []string{`.*\.blocked\.test$`, `partial\.example`, `^intra\.`, `\.internal$`,
 	`^93\.184\.77\.`, `^10\.77\.`, `^127\.77\.`, `^2606:2800:77:`, `^fd12:77:`}
 
-var vcovNet = map[string]string{"n10": "10.0.0.0/8", "n127": "127.0.0.0/8", "nfc": "fc00::/7", "npub4": "93.184.0.0/16", "npub6": "2606:2800::/32"}
+var vcovNet = map[string]string{"n10": "10.0.0.0/8", "n127": "127.0.0.0/8", "n127h": "127.0.0.1/32", "nfc": "fc00::/7", "npub4": "93.184.0.0/16", "npub6": "2606:2800::/32"}
 
 func vcovPorts(class string) []string {
 	switch class {
@@ -182,6 +182,42 @@ type vcovPol struct {
 	Block    []string `json:"block"`
 	Allow    []string `json:"allow"`
 	Patterns bool     `json:"patterns"`
+	Pub      bool     `json:"pub"` // covert_blocklist_public_addrs
+}
+
+// the subnets of this machine's interfaces, as covert_blocklist_public_addrs is specified to add them
+func vcovLocalNets() []netip.Prefix {
+	res := []netip.Prefix{}
+	addrs, _ := net.InterfaceAddrs()
+	for _, a := range addrs {
+		if n, ok := a.(*net.IPNet); ok {
+			if pf, err := netip.ParsePrefix(n.String()); err == nil {
+				res = append(res, pf.Masked())
+			}
+		}
+	}
+	return res
+}
+
+// the symbolic addresses must relate to the real interfaces as the specification assumes: 127.0.0.1 and 127.0.0.2 (and the
+// pattern-matched 127.77.0.1) inside the loopback subnet, every other one outside every interface subnet
+func vcovCheckLocal(t testing.TB) {
+	in := func(a string) bool {
+		ip := netip.MustParseAddr(a)
+		for _, pf := range vcovLocalNets() {
+			if pf.Contains(ip) {
+				return true
+			}
+		}
+		return false
+	}
+	for _, m := range []map[string]string{vcovAddr, vcovAddrB} {
+		for k, a := range m {
+			if want := k == "loop4" || k == "loopnet4"; in(a) != want {
+				t.Fatalf("environment: address %s (%s) inside a local interface subnet = %v, the specification assumes %v", a, k, in(a), want)
+			}
+		}
+	}
 }
 type vcovRow struct {
 	Inp     vcovInp `json:"inp"`
@@ -262,6 +298,7 @@ func vcovConfig(p *vcovPol) *RegConfig {
 	if p.Patterns {
 		c.CovertBlocklistDomains = append([]string(nil), vcovPatterns...)
 	}
+	c.CovertBlocklistPublicAddrs = p.Pub
 	c.ParseBlocklists()
 	return c
 }
@@ -280,6 +317,13 @@ func vcovPermitted(p *vcovPol, ip netip.Addr) bool {
 	if len(p.Allow) > 0 {
 		return in(p.Allow)
 	}
+	if p.Pub {
+		for _, pf := range vcovLocalNets() {
+			if pf.Contains(ip) {
+				return false
+			}
+		}
+	}
 	return !in(p.Block)
 }
 
@@ -287,6 +331,7 @@ func TestVerifCovertRows(t *testing.T) {
 	out := vOpenOut(t)
 	defer out.Close()
 	dns := vdnsStart(t)
+	vcovCheckLocal(t)
 	nrows, ncalls, nmis := 0, 0, 0
 	cfgCache := map[string]*RegConfig{}
 	vReadLines(t, func(line []byte) {
@@ -502,16 +547,18 @@ func TestVerifCovertRandom(t *testing.T) {
 	rng := rand.New(rand.NewSource(vSeed()))
 	n := vEnvInt("VERIF_N", 20000)
 	pols := []vcovPol{}
-	blocks := [][]string{{}, {"n10"}, {"n10", "n127", "nfc"}, {"n127"}}
-	allows := [][]string{{}, {"npub4"}, {"npub4", "npub6"}, {"n10"}}
+	blocks := [][]string{{}, {"n10"}, {"n10", "n127", "nfc"}, {"n127"}, {"n127h"}, {"n127h", "n10"}}
+	allows := [][]string{{}, {"npub4"}, {"npub4", "npub6"}, {"n10"}, {}}
 	for _, b := range blocks {
 		for _, a := range allows {
-			pols = append(pols, vcovPol{Block: b, Allow: a, Patterns: true})
+			for _, pub := range []bool{false, true} {
+				pols = append(pols, vcovPol{Block: b, Allow: a, Patterns: true, Pub: pub})
+			}
 		}
 	}
 	// the shipped policy (cmd/application/app_config.toml) is one of the policies, loaded through the real parser
 	shipped := vcovShipped(t)
-	pieces := []string{"10.1.2.3", "93.184.216.34", "127.0.0.1", "fd12:3456::1", "2606:2800:220:1::1", "::ffff:10.1.2.3", "fe80::1%lo", "[", "]", ":", "::", "443", "65536",
+	pieces := []string{"127.0.0.2", "::ffff:127.1.2.3", "127.255.255.254", "10.1.2.3", "93.184.216.34", "127.0.0.1", "fd12:3456::1", "2606:2800:220:1::1", "::ffff:10.1.2.3", "fe80::1%lo", "[", "]", ":", "::", "443", "65536",
 		"0x50", "-1", "", " ", "a.verif.test", "x.blocked.test", "%", "1", "0", ".", "00", "010.1.2.3", "0xa.1.2.3", "10.1.2.3.", "fc00::1", "FD00::1", "::1", "0.0.0.0", "169.254.1.1", "192.168.1.1", "172.16.0.9"}
 	bad := 0
 	for i := 0; i < n; i++ {
@@ -523,7 +570,7 @@ func TestVerifCovertRandom(t *testing.T) {
 				s += pieces[rng.Intn(len(pieces))]
 			}
 		case 1:
-			h := pieces[rng.Intn(12)]
+			h := pieces[rng.Intn(15)]
 			if strings.Contains(h, ":") {
 				h = "[" + h + "]"
 			}
@@ -590,6 +637,9 @@ func vcovShipped(t testing.TB) *RegConfig {
 		if pf, err := netip.ParsePrefix(strings.TrimSpace(s)); err == nil {
 			vcovShippedNets = append(vcovShippedNets, pf)
 		}
+	}
+	if c.RegConfig.CovertBlocklistPublicAddrs {
+		vcovShippedNets = append(vcovShippedNets, vcovLocalNets()...)
 	}
 	return c.RegConfig
 }
